@@ -2237,7 +2237,7 @@ class _Simu(_IObserver, _params.Updatable, ABC):
             self.Bc_Lagrange,  # type: ignore [arg-type]
         )
         if nBc > 0:
-            nBc += len(self.Bc_dofs_Dirichlet(problemType))
+            nBc += np.unique(self.Bc_dofs_Dirichlet(problemType)).size
         return nBc
 
     @property
